@@ -1703,6 +1703,17 @@ class _Desugar(ast.NodeTransformer):
             body = [st for st in h.body if not (
                 isinstance(st, ast.Expr) and
                 isinstance(st.value, ast.Constant))]
+            # statements before the dispatch run whichever class it is:
+            # they go to both handlers
+            prefix, body = body[:-1], body[-1:]
+            if any(isinstance(n, ast.Name) and n.id == h.name and
+                   isinstance(n.ctx, (ast.Store, ast.Del))
+                   for st in prefix for n in ast.walk(st)) or any(
+                    isinstance(n, (ast.Return, ast.Raise, ast.Break,
+                                   ast.Continue, ast.Yield, ast.YieldFrom))
+                    for st in prefix for n in ast.walk(st)):
+                out.append(h)
+                continue
             t = body[0].test if len(body) == 1 and \
                 isinstance(body[0], ast.If) and body[0].orelse else None
             if isinstance(h.type, ast.Tuple) and h.name and \
@@ -1716,11 +1727,13 @@ class _Desugar(ast.NodeTransformer):
                     rest = [e for e in h.type.elts
                             if ast.dump(e) != ast.dump(t.args[1])]
                     first = ast.copy_location(ast.ExceptHandler(
-                        type=t.args[1], name=h.name, body=body[0].body), h)
+                        type=t.args[1], name=h.name,
+                        body=copy.deepcopy(prefix) + body[0].body), h)
                     second = ast.copy_location(ast.ExceptHandler(
                         type=rest[0] if len(rest) == 1 else ast.Tuple(
                             elts=rest, ctx=ast.Load()),
-                        name=h.name, body=body[0].orelse), h)
+                        name=h.name,
+                        body=copy.deepcopy(prefix) + body[0].orelse), h)
                     out += [first] + self._split_handlers([second])
                     self.count += 1
                     continue
